@@ -25,6 +25,7 @@ from ..consteval import ConstEval, EnumVal, enum_members
 from ..core import (AnalysisError, FuncInfo, FUNC_TYPES, ap, call_attr, calls, enclosing_stmt, facts,
                     find_calls, kw, norm, parent, set_parents, src, stores, walk)
 from .. import tzlint
+from .common import as_pair
 
 LLSD = "hippolyzer/lib/base/llsd.py"
 PACK = "hippolyzer/lib/base/message/data_packer.py"
@@ -378,9 +379,10 @@ def r1(ctx):
             if (ne is None) != (tne is None) or (ne is not None and ev.ev(ne) != ev.ev(tne)):
                 ctx.note(f"C12.R1: LLSD SPECS[{m}] needed_elems={norm(ne) if ne is not None else None} differs from the "
                          f"binary row ({norm(tne) if tne is not None else None}); not a round-trip condition")
-        elif isinstance(v, ast.Tuple) and len(v.elts) == 2:
+        elif as_pair(repo, pmod, v) is not None:
+            pv, ptv = as_pair(repo, pmod, v), as_pair(repo, pmod, tv)
             ctx.ob("C12.R1", f"LLSD SPECS[{m}] idiom pair equals the binary row's confirmed inverse pair",
-                   isinstance(tv, ast.Tuple) and [norm(e) for e in v.elts] == [norm(e) for e in tv.elts], where,
+                   ptv is not None and [norm(e) for e in pv] == [norm(e) for e in ptv], where,
                    f"LLSD row {norm(v)} vs binary row {norm(tv)}")
         else:
             raise AnalysisError(f"LLSD SPECS[{m}] has unsupported shape {norm(v)}: read it and extend C12.R1")
@@ -389,9 +391,9 @@ def r1(ctx):
     fac = repo.fn("_make_llsd_tuplecoord_spec", PACK)
     sib = repo.fn("_make_tuplecoord_spec", PACK)
     rets = [n for n in walk(fac.node) if isinstance(n, ast.Return)]
-    ctx.require(len(rets) == 1 and isinstance(rets[0].value, ast.Tuple) and len(rets[0].value.elts) == 2,
-                "_make_llsd_tuplecoord_spec no longer returns one (unpacker, packer) tuple")
-    up, pk = rets[0].value.elts
+    pair = as_pair(repo, pmod, rets[0].value) if len(rets) == 1 and rets[0].value is not None else None
+    ctx.require(pair is not None, "_make_llsd_tuplecoord_spec no longer returns one (unpacker, packer) pair")
+    up, pk = pair
     typ_param = fac.node.args.args[0].arg
     ups = _resolve_callable(repo, fac, up)
     ok_up = bool(ups)
@@ -454,6 +456,25 @@ def r1(ctx):
             # the packer yields the elements themselves
             prets = [n for n in walk(d) if isinstance(n, ast.Return) and n.value is not None]
             ctx.ob("C12.R1", f"{f.qual}.{d.name}[{branch}]: packer returns on every path", bool(prets), ctx.w(f, d))
+            if side == "llsd" and prets:
+                # the unpacker is a plain typ(*array) (checked above), so the packer must hand the components over
+                # unchanged: no arithmetic on elements of the value
+                dparams = {a.arg for a in d.args.args}
+                if any(call_attr(r_.value) in dparams for r_ in prets if isinstance(r_.value, ast.Call)):
+                    continue          # an unpacker-shaped helper (typ(*x)), not a packer
+                elems = _derived_names(d, dparams)
+                names = dparams | set(elems)
+                arith = []
+                for n_ in walk(d, into_defs=True):
+                    if isinstance(n_, ast.UnaryOp) and isinstance(n_.op, (ast.USub, ast.Invert)) and isinstance(n_.operand, ast.Name) \
+                            and n_.operand.id in _comp_vars(d, names) | names:
+                        arith.append(n_)
+                    elif isinstance(n_, ast.BinOp) and not isinstance(n_.op, (ast.BitAnd, ast.BitOr)) and any(
+                            isinstance(o, ast.Name) and o.id in _comp_vars(d, names) for o in (n_.left, n_.right)):
+                        arith.append(n_)
+                ctx.ob("C12.R1", f"{f.qual}.{d.name}[{branch}]: packer hands the components over unchanged", not arith, ctx.w(f, d),
+                       "" if not arith else f"`{norm(arith[0])}` alters component values, but the unpacker rebuilds the coordinate "
+                       f"from the array as it is: some value does not come back equal")
 
     # ---- serializer walk
     ser = repo.fn("LLSDMessageSerializer.serialize")
@@ -546,16 +567,35 @@ def r1(ctx):
         ctx.ob("C12.R1", f"{h.qual}: memo table {cache} is keyed by every input of the memoised variable list", not missing,
                ctx.w(h, node), f"key `{key}` is only a projection of {missing}: two different template blocks with the same "
                f"projection share one cached variable list (block names repeat across messages)")
+    def _param_env(h: FuncInfo, c: ast.Call) -> Dict[str, ast.AST]:
+        ps = [a.arg for a in h.node.args.args]
+        if ps and ps[0] in ("self", "cls"):
+            ps = ps[1:]
+        env = {p_: a for p_, a in zip(ps, c.args) if not isinstance(a, ast.Starred)}
+        env.update({k.arg: k.value for k in c.keywords if k.arg})
+        return env
+
     for side, f, meth in (("serialize", ser, "pack"), ("deserialize", des, "unpack")):
-        loops = [n for n in walk(f.node) if isinstance(n, ast.For) and isinstance(n.iter, ast.Call)
+        # the walk may sit in f itself or in a same-class helper f hands the dict (and the converter) to
+        walks = [(f, n, {}) for n in walk(f.node) if isinstance(n, ast.For) and isinstance(n.iter, ast.Call)
                  and ap(n.iter.func) == "self._yield_vars"]
-        ctx.ob("C12.R1", f"{side} iterates self._yield_vars(...)", len(loops) == 1, f.where, f"found {len(loops)} loops")
-        for lp in loops:
+        if not walks and f.cls is not None:
+            for c in calls(f.node):
+                if isinstance(c.func, ast.Attribute) and ap(c.func.value) in ("self", "cls"):
+                    h = repo.lookup_method(f.cls, c.func.attr)
+                    if h is not None and h is not f:
+                        for n in walk(h.node):
+                            if isinstance(n, ast.For) and isinstance(n.iter, ast.Call) and ap(n.iter.func) == "self._yield_vars":
+                                walks.append((h, n, _param_env(h, c)))
+        ctx.ob("C12.R1", f"{side} iterates self._yield_vars(...)", len(walks) == 1, f.where, f"found {len(walks)} loops")
+        for host, lp, env in walks:
+            def _res(e):
+                return ap(env[e.id]) if isinstance(e, ast.Name) and e.id in env else ap(e)
             ok_t = isinstance(lp.target, ast.Tuple) and len(lp.target.elts) == 2
             blk, tv = (ap(lp.target.elts[0]), ap(lp.target.elts[1])) if ok_t else (None, None)
-            cs = [c for c in find_calls(lp, meth) if ap(c.func) == f"LLSDDataPacker.{meth}"]
+            cs = [c for c in calls(lp) if _res(c.func) == f"LLSDDataPacker.{meth}"]
             ok = ok_t and len(cs) == 1 and len(cs[0].args) == 2 and ap(cs[0].args[1]) == f"{tv}.type"
-            ctx.ob("C12.R1", f"{side} converts with LLSDDataPacker.{meth}(value, tmpl_var.type)", bool(ok), ctx.w(f, lp))
+            ctx.ob("C12.R1", f"{side} converts with LLSDDataPacker.{meth}(value, tmpl_var.type)", bool(ok), ctx.w(host, lp))
             if not ok:
                 continue
             # value read from and written back to block[tmpl_var.name]
@@ -567,9 +607,9 @@ def r1(ctx):
                 val = vs[-1] if vs else val
             ok_rw = len(st) == 1 and any(x is cs[0] for x in ast.walk(st[0].value)) and isinstance(val, ast.Subscript) \
                 and ap(val.value) == blk and ap(val.slice) == f"{tv}.name"
-            ctx.ob("C12.R1", f"{side} replaces block[tmpl_var.name] by its converted value", ok_rw, ctx.w(f, lp))
+            ctx.ob("C12.R1", f"{side} replaces block[tmpl_var.name] by its converted value", ok_rw, ctx.w(host, lp))
             # the walked dict is the one handed on
-            arg = ap(lp.iter.args[0]) if lp.iter.args else None
+            arg = _res(lp.iter.args[0]) if lp.iter.args else None
             if side == "serialize":
                 outs = [n.value for n in walk(f.node) if isinstance(n, ast.Return) and n.value is not None]
                 ok_o = bool(outs) and all(arg in {ap(x) for x in ast.walk(o)} for o in outs)
@@ -620,19 +660,23 @@ def _deep_fresh(ctx, f: FuncInfo, value: ast.AST, at: ast.AST, shared: Set[str],
     return False, f"`{norm(value)}` may share nested containers with the argument"
 
 
-def r1_alias(ctx, des: FuncInfo):
-    """deserialize(llsd_val): every store into an object obtained from the parameter must be preceded, on
-    every path, by rebinding the parameter to a deep copy / fresh parse."""
-    params = [a.arg for a in des.node.args.args if a.arg not in ("self", "cls")]
-    ctx.require(len(params) >= 1, "LLSDMessageSerializer.deserialize lost its parameter")
-    P = params[0]
-    cfg = CFG(des.node)
-    # names derived from P: bound by for-targets / assignments whose source mentions P or a derived name
+def _comp_vars(fn_node, sources: Set[str]) -> Set[str]:
+    """loop / comprehension variables iterating one of the source names (element variables)"""
+    out: Set[str] = set()
+    for n in walk(fn_node, into_defs=True):
+        if isinstance(n, (ast.For, ast.comprehension)):
+            if {x.id for x in ast.walk(n.iter) if isinstance(x, ast.Name)} & sources:
+                out |= {x.id for x in ast.walk(n.target) if isinstance(x, ast.Name)}
+    return out
+
+
+def _derived_names(fn_node, roots: Set[str]) -> Dict[str, ast.AST]:
+    """names bound (for-targets / assignments) from expressions mentioning a root or another derived name"""
     derived: Dict[str, ast.AST] = {}
     changed = True
     while changed:
         changed = False
-        for n in walk(des.node):
+        for n in walk(fn_node):
             binds = []
             if isinstance(n, ast.For):
                 binds = [(n.target, n.iter, n)]
@@ -640,27 +684,73 @@ def r1_alias(ctx, des: FuncInfo):
                 binds = [(t, n.value, n) for t in n.targets]
             for tgt, val, stmt in binds:
                 srcn = {x.id for x in ast.walk(val) if isinstance(x, ast.Name)}
-                if srcn & ({P} | set(derived)):
+                if srcn & (roots | set(derived)):
                     for x in ast.walk(tgt):
-                        if isinstance(x, ast.Name) and x.id != P and x.id not in derived:
-                            # scalars read out of a container are not containers we store into; keep all (over-approx)
+                        if isinstance(x, ast.Name) and x.id not in roots and x.id not in derived:
                             derived[x.id] = stmt
                             changed = True
+    return derived
+
+
+def _mutating_stores(fn_node, roots: Set[str], derived: Dict[str, ast.AST]):
+    out = []
+    for s in stores(fn_node, into_defs=False):
+        root = s.path.split(".")[0].replace("[]", "")
+        if s.kind in ("setitem", "augsetitem", "delitem", "mutcall") or (s.kind in ("assign", "augassign") and "." in s.path):
+            if root in derived or root in roots:
+                out.append((s, root))
+    return out
+
+
+def _mutated_params(repo, h: FuncInfo, depth=0) -> Set[str]:
+    """Parameters of helper h into whose (transitively reachable) objects h stores."""
+    ps = {a.arg for a in h.node.args.args} - {"self", "cls"}
+    out = set()
+    for p_ in ps:
+        d = _derived_names(h.node, {p_})
+        if _mutating_stores(h.node, {p_}, d):
+            out.add(p_)
+    return out
+
+
+def r1_alias(ctx, des: FuncInfo):
+    """deserialize(llsd_val): every store into an object obtained from the parameter - in deserialize itself or in a
+    same-class helper the object is handed to - must be preceded, on every path, by rebinding the parameter to a
+    deep copy / fresh parse."""
+    repo = ctx.repo
+    params = [a.arg for a in des.node.args.args if a.arg not in ("self", "cls")]
+    ctx.require(len(params) >= 1, "LLSDMessageSerializer.deserialize lost its parameter")
+    P = params[0]
+    cfg = CFG(des.node)
+    derived = _derived_names(des.node, {P})
     defs = [s for s in stores(des.node, into_defs=False) if s.path == P and s.kind == "assign"]
     def_nodes = {}
     for s in defs:
         for cn in cfg.nodes_for(s.node):
             def_nodes[cn] = s
+    # (origin statement, construct text, where-node)
     sites = []
-    for s in stores(des.node, into_defs=False):
-        root = s.path.split(".")[0].replace("[]", "")
-        if s.kind in ("setitem", "augsetitem", "delitem", "mutcall") or (s.kind in ("assign", "augassign") and "." in s.path):
-            if root in derived or root == P:
-                sites.append((s, root))
-    ctx.floor("C12.R1", "stores into the converted LLSD structure in deserialize", len(sites), 1)
-    for s, root in sites:
-        # where was the stored-into object obtained from P?  (binding statement of the derived name, or the store itself)
+    for s, root in _mutating_stores(des.node, {P}, derived):
         origin = derived[root] if root in derived else (s.node if isinstance(s.node, ast.stmt) else enclosing_stmt(s.node))
+        sites.append((origin, f"store `{norm(s.target)}`", s.node))
+    if des.cls is not None:
+        for c in calls(des.node):
+            if isinstance(c.func, ast.Attribute) and ap(c.func.value) in ("self", "cls"):
+                h = repo.lookup_method(des.cls, c.func.attr)
+                if h is None or h is des:
+                    continue
+                hp = [a.arg for a in h.node.args.args]
+                hp = hp[1:] if hp and hp[0] in ("self", "cls") else hp
+                bound = dict(zip(hp, c.args))
+                bound.update({k.arg: k.value for k in c.keywords if k.arg})
+                for p_ in _mutated_params(repo, h):
+                    a = bound.get(p_)
+                    if a is not None and {x.id for x in ast.walk(a) if isinstance(x, ast.Name)} & ({P} | set(derived)):
+                        root = next(x.id for x in ast.walk(a) if isinstance(x, ast.Name) and x.id in ({P} | set(derived)))
+                        origin = derived[root] if root in derived else enclosing_stmt(c)
+                        sites.append((origin, f"{h.name}() stores into its argument `{norm(a)}`", c))
+    ctx.floor("C12.R1", "stores into the converted LLSD structure in deserialize", len(sites), 1)
+    for origin, what, where_node in sites:
         o_nodes = cfg.nodes_for(origin)
         ctx.require(bool(o_nodes), "C12.R1 aliasing: binding statement not in the CFG")
         problems = []
@@ -675,8 +765,8 @@ def r1_alias(ctx, des: FuncInfo):
                 ok, why = _deep_fresh(ctx, des, d.value, d.node, {P} | set(derived))
                 if not ok:
                     problems.append(why)
-        inst = f"LLSDMessageSerializer.deserialize: store `{norm(s.target)}` reaches only a private copy of `{P}`"
-        ctx.ob("C12.R1", inst, not problems, ctx.w(des, s.node),
+        inst = f"LLSDMessageSerializer.deserialize: {what} reaches only a private copy of `{P}`"
+        ctx.ob("C12.R1", inst, not problems, ctx.w(des, where_node),
                "" if not problems else "deserialize writes converted values into the caller's LLSD form: " + "; ".join(problems))
 
 
@@ -1068,6 +1158,32 @@ def r2(ctx):
                 ctx.note(f"C12.R2: {inst}: does NOT hold, but the branch is dead code today (shadowed); it becomes a "
                          f"live defect for non-ASCII values as soon as the branch order is fixed")
     ctx.floor("C12.R2", "tags emitted by the binary formatter", n_tags, 14)
+    # stream-backed subclasses (own _getc): the base _parse_array steps over the closing token with index arithmetic that
+    # means nothing on a stream, so the subclass must read that one byte itself on every normal path
+    base_arr = pm._tp_method("_parse_array")
+    steps_index = base_arr is not None and any(isinstance(n, ast.AugAssign) and ap(n.target) == "self._index"
+                                               for n in ast.walk(base_arr[1]))
+    n_stream = 0
+    for k in repo.subclasses(pm.hippo, strict=True):
+        if "_getc" not in k.methods or not steps_index:
+            continue
+        n_stream += 1
+        m = k.methods.get("_parse_array")
+        if m is None:
+            ctx.ob("C12.R2", f"{k.name}: stream-backed parser consumes the array close token", False, ctx.w(k.module, k.node),
+                   "overrides _getc but inherits _parse_array, whose `self._index += 1` does not advance the stream")
+            continue
+        cfg = CFG(m.node)
+        one_byte = []
+        for c in calls(m.node):
+            if ap(c.func) == "self._getc" and (not c.args and not c.keywords or len(c.args) == 1 and
+                                                isinstance(c.args[0], ast.Constant) and c.args[0].value == 1):
+                one_byte.extend(cfg.stmt_nodes_containing(c))
+        escapes = cfg.exit in cfg.reachable([cfg.entry], avoid=lambda n: n in one_byte, exc=False)
+        ctx.ob("C12.R2", f"{k.name}._parse_array reads the one-byte close token on every normal path", bool(one_byte) and not escapes,
+               m.where, "a path returns without consuming the `]` the formatter always writes: the next token is read from it "
+               "(empty arrays / early returns)")
+    ctx.floor("C12.R2", "stream-backed binary parser subclasses", n_stream, 1)
     # map keys: tag written for keys is accepted by _parse_map
     # (covered by the structural set: b'k')
 
@@ -1193,12 +1309,30 @@ def r4(ctx):
     ok_all = bool(srets)
     detail = ""
     for rt in srets:
-        # peel .replace(...) calls down to the base formatter's result
+        # peel .replace(...) calls (also inside same-class helpers applied to the value) down to the base formatter's result
         cur = rt.value
         repl = []
-        while isinstance(cur, ast.Call) and isinstance(cur.func, ast.Attribute) and cur.func.attr == "replace":
-            repl.append(cur)
-            cur = cur.func.value
+        for _ in range(12):
+            if isinstance(cur, ast.Call) and isinstance(cur.func, ast.Attribute) and cur.func.attr == "replace":
+                repl.append(cur)
+                cur = cur.func.value
+                continue
+            if isinstance(cur, ast.Call) and isinstance(cur.func, ast.Attribute) and len(cur.args) == 1 and not cur.keywords \
+                    and ap(cur.func.value) in ("self", "cls", owner.name):
+                hm = repo.lookup_method(owner, cur.func.attr)
+                if hm is not None and hm is not sm:
+                    hps = [a.arg for a in hm.node.args.args if a.arg not in ("self", "cls")]
+                    hrets = [n for n in walk(hm.node) if isinstance(n, ast.Return) and n.value is not None]
+                    if len(hps) == 1 and len(hrets) == 1 and not any(st.path == hps[0] for st in stores(hm.node)):
+                        inner, chain = hrets[0].value, []
+                        while isinstance(inner, ast.Call) and isinstance(inner.func, ast.Attribute) and inner.func.attr == "replace":
+                            chain.append(inner)
+                            inner = inner.func.value
+                        if ap(inner) == hps[0]:
+                            repl.extend(chain)
+                            cur = cur.args[0]
+                            continue
+            break
         base_ok = isinstance(cur, ast.Call) and isinstance(cur.func, ast.Attribute) and cur.func.attr == "STRING" and \
             isinstance(cur.func.value, ast.Call) and ap(cur.func.value.func) == "super"
         nl = [c for c in repl if len(c.args) >= 2 and isinstance(c.args[0], ast.Constant) and c.args[0].value in (b"\n", "\n")
@@ -1270,7 +1404,32 @@ def r5(ctx):
         ctx.ob("C12.R5", f"parse_binary: `{norm(st.node)}` keeps a part of the document only after a startswith() test", ok,
                ctx.w(f, st.node), "the header bytes are searched anywhere in the document: a headerless document whose "
                "binary/string value embeds a headered LLSD document is cut at the embedded header")
-    # the parser is handed the (possibly stripped) parameter
+    # binary LLSD is length-prefixed: every trailing byte is payload.  Whatever reaches parse_binary / the parser
+    # may have lost a prefix, never a suffix.
+    SUFFIX_LOSSY = {"strip", "rstrip", "removesuffix", "replace", "translate", "splitlines", "expandtabs", "lower", "upper"}
+    for g, target in ((f, "parse"), (repo.fn("parse", LLSD), "parse_binary")):
+        gp = g.node.args.args[0].arg if g.node.args.args else None
+        hand = [c for c in calls(g.node) if call_attr(c) == target and c.args and gp is not None
+                and gp in {x.id for x in ast.walk(c.args[0]) if isinstance(x, ast.Name)}]
+        if g is not f:
+            ctx.floor("C12.R5", "hand-over of the sniffed document to parse_binary", len(hand), 1)
+        bad = []
+        for st in stores(g.node, into_defs=False):
+            if st.path == gp and st.value is not None:
+                for x in ast.walk(st.value):
+                    if isinstance(x, ast.Call) and isinstance(x.func, ast.Attribute) and x.func.attr in SUFFIX_LOSSY and \
+                            gp in {y.id for y in ast.walk(x.func.value) if isinstance(y, ast.Name)}:
+                        bad.append(x)
+                    if isinstance(x, ast.Subscript) and isinstance(x.slice, ast.Slice) and x.slice.upper is not None and ap(x.value) == gp:
+                        bad.append(x)
+        for c in hand:
+            for x in ast.walk(c.args[0]):
+                if isinstance(x, ast.Call) and isinstance(x.func, ast.Attribute) and x.func.attr in SUFFIX_LOSSY:
+                    bad.append(x)
+        # only rebindings that can reach the hand-over matter
+        ctx.ob("C12.R5", f"{g.qual}: the document reaches the binary parser with its tail intact", not bad or not hand, ctx.w(g, g.node),
+               "" if not bad else f"`{norm(bad[0])}` can remove trailing bytes; in binary LLSD they belong to the last value "
+               f"(an integer 32, a string ending in a newline, a UUID ending in 0x20)")
     pcs = [c for c in calls(f.node) if call_attr(c) == "parse" and c.args]
     ctx.ob("C12.R5", "parse_binary hands the document to HippoLLSDBinaryParser().parse", len(pcs) == 1 and
            ({x.id for x in ast.walk(pcs[0].args[0]) if isinstance(x, ast.Name)} <= {P} | derived), f.where)
